@@ -1,0 +1,124 @@
+//go:build verif
+
+package main
+
+// Verification hook (build tag `verif` only): a batch mode of the real binary.
+// When BORNO_VERIF_BATCH=1 the process reads one JSON request per line on its
+// original stdin, runs the unmodified run() of main.go on the request's source
+// with os.Stdin/os.Stdout/os.Stderr pointed at per-worker scratch files, and
+// answers with one JSON line on its original stdout.  Without the environment
+// variable the binary behaves exactly like the ordinary CLI.
+
+import (
+	"bufio"
+	"encoding/json"
+	"fmt"
+	"io"
+	"os"
+
+	"github.com/ah-naf/borno/interpreter"
+	"github.com/ah-naf/borno/utils"
+)
+
+type verifRequest struct {
+	Src    string `json:"src"`
+	Stdin  string `json:"stdin"`
+	Repl   bool   `json:"repl"`
+	Budget int64  `json:"budget"`
+	Depth  int64  `json:"depth"`
+}
+
+type verifResponse struct {
+	Out       string `json:"out"`
+	Err       string `json:"err"`
+	HadErr    bool   `json:"hadErr"`
+	HadRt     bool   `json:"hadRt"`
+	Panic     string `json:"panic"`
+	BudgetHit bool   `json:"budgetHit"`
+	Steps     int64  `json:"steps"`
+}
+
+func init() {
+	if os.Getenv("BORNO_VERIF_BATCH") != "1" {
+		return
+	}
+	verifBatch()
+	os.Exit(0)
+}
+
+func verifScratch(name string) *os.File {
+	f, err := os.CreateTemp(os.Getenv("BORNO_VERIF_DIR"), name)
+	if err != nil {
+		fmt.Fprintln(os.Stderr, "verif batch: "+err.Error())
+		os.Exit(3)
+	}
+	os.Remove(f.Name())
+	return f
+}
+
+func verifReset(f *os.File, content string) {
+	f.Truncate(0)
+	f.Seek(0, io.SeekStart)
+	if content != "" {
+		f.WriteString(content)
+		f.Seek(0, io.SeekStart)
+	}
+}
+
+func verifSlurp(f *os.File) string {
+	f.Seek(0, io.SeekStart)
+	b, _ := io.ReadAll(f)
+	return string(b)
+}
+
+func verifBatch() {
+	realIn, realOut := os.Stdin, os.Stdout
+	inF, outF, errF := verifScratch("in"), verifScratch("out"), verifScratch("err")
+	rd := bufio.NewReaderSize(realIn, 1<<20)
+	wr := bufio.NewWriter(realOut)
+	for {
+		line, err := rd.ReadBytes('\n')
+		if len(line) == 0 && err != nil {
+			return
+		}
+		var req verifRequest
+		if json.Unmarshal(line, &req) != nil {
+			fmt.Fprintln(os.Stderr, "verif batch: bad request")
+			os.Exit(3)
+		}
+		verifReset(inF, req.Stdin)
+		verifReset(outF, "")
+		verifReset(errF, "")
+		os.Stdin, os.Stdout, os.Stderr = inF, outF, errF
+		utils.HadError, utils.HadRuntimeError = false, false
+		var resp verifResponse
+		func() {
+			defer func() {
+				if r := recover(); r != nil {
+					if interpreter.VerifIsBudgetPanic(r) {
+						resp.BudgetHit = true
+					} else {
+						resp.Panic = fmt.Sprint(r)
+						if resp.Panic == "" {
+							resp.Panic = "panic"
+						}
+					}
+				}
+			}()
+			interpreter.VerifArm(req.Budget, req.Depth)
+			run(req.Src, req.Repl)
+		}()
+		resp.Steps = interpreter.VerifSteps()
+		interpreter.VerifArm(0, 0)
+		resp.HadErr, resp.HadRt = utils.HadError, utils.HadRuntimeError
+		os.Stdin, os.Stdout, os.Stderr = realIn, realOut, os.NewFile(2, "/dev/stderr")
+		resp.Out, resp.Err = verifSlurp(outF), verifSlurp(errF)
+		b, _ := json.Marshal(&resp)
+		wr.Write(b)
+		wr.WriteByte('\n')
+		wr.Flush()
+		if err != nil {
+			return
+		}
+	}
+}
